@@ -17,6 +17,7 @@ const (
 	SBV
 	SInt
 	SFP
+	SReal
 )
 
 type Sort struct {
@@ -28,6 +29,7 @@ var (
 	BoolSort = Sort{SBool, 0}
 	IntSort  = Sort{SInt, 0}
 	FPSort   = Sort{SFP, 64}
+	RealSort = Sort{SReal, 0}
 )
 
 func BV(w int) Sort { return Sort{SBV, w} }
@@ -42,6 +44,8 @@ func (s Sort) String() string {
 		return "Int"
 	case SFP:
 		return "(_ FloatingPoint 11 53)"
+	case SReal:
+		return "Real"
 	}
 	return "?"
 }
